@@ -45,15 +45,6 @@ interface endinterface import unique priority return break continue`) {
 	}
 }
 
-// svKeywords are SystemVerilog keywords that we recognise only to classify a
-// module as outside the subset.
-var svKeywords = map[string]bool{
-	"logic": true, "always_comb": true, "always_ff": true, "always_latch": true, "bit": true, "byte": true,
-	"int": true, "shortint": true, "longint": true, "typedef": true, "enum": true, "struct": true, "union": true,
-	"package": true, "endpackage": true, "interface": true, "endinterface": true, "import": true, "unique": true,
-	"priority": true, "return": true, "break": true, "continue": true,
-}
-
 type lexError struct {
 	line int
 	msg  string
@@ -71,6 +62,31 @@ type lexer struct {
 	errs    []lexError
 	unsup   []lexError // unsupported preprocessor constructs
 	depth   int        // macro expansion depth
+
+	honorTranslateOff bool // skip "// synthesis translate_off" ... "translate_on" regions
+}
+
+// skipTranslateOff skips source text up to and including the next comment containing translate_on.
+func (l *lexer) skipTranslateOff() {
+	start := l.line
+	for l.pos < len(l.src) {
+		c := l.src[l.pos]
+		if c == '\n' {
+			l.line++
+			l.pos++
+			continue
+		}
+		if c == '/' && l.peekc(1) == '/' {
+			cm := l.skipToEOL()
+			if strings.Contains(cm, "translate_on") {
+				l.unsup = append(l.unsup, lexError{start, fmt.Sprintf("synthesis translate_off region skipped (lines %d-%d)", start, l.line)})
+				return
+			}
+			continue
+		}
+		l.pos++
+	}
+	l.errs = append(l.errs, lexError{start, "unterminated synthesis translate_off region"})
 }
 
 func isIdentStart(c byte) bool {
@@ -85,8 +101,8 @@ func isSpace(c byte) bool {
 }
 
 // lexAll tokenises src. It never panics; problems are collected in l.errs.
-func lexAll(src string, defines map[string]string) *lexer {
-	l := &lexer{src: []byte(src), line: 1, defines: defines}
+func lexAll(src string, defines map[string]string, honorTranslateOff bool) *lexer {
+	l := &lexer{src: []byte(src), line: 1, defines: defines, honorTranslateOff: honorTranslateOff}
 	if l.defines == nil {
 		l.defines = map[string]string{}
 	}
@@ -146,7 +162,10 @@ func (l *lexer) run() {
 		case isSpace(c):
 			l.pos++
 		case c == '/' && l.peekc(1) == '/':
-			l.skipToEOL()
+			cm := l.skipToEOL()
+			if l.honorTranslateOff && strings.Contains(cm, "translate_off") {
+				l.skipTranslateOff()
+			}
 		case c == '/' && l.peekc(1) == '*':
 			l.pos += 2
 			closed := false
